@@ -135,7 +135,14 @@ def run_translator() -> dict:
     """regenerate lean/Mahotas/Generated/*.lean from the current /repo sources"""
     sys.path.insert(0, str(VERIF))
     from translator import tables
-    return tables.generate(REPO, LEAN / 'Mahotas' / 'Generated')
+    out = tables.generate(REPO, LEAN / 'Mahotas' / 'Generated')
+    # additive: per-property generators living in their own modules (C11 guards, C12 static objects)
+    import importlib
+    for modname in ('guards', 'statics'):
+        if (VERIF / 'translator' / f'{modname}.py').exists():
+            mod = importlib.import_module(f'translator.{modname}')
+            out.update(mod.generate(REPO, LEAN / 'Mahotas' / 'Generated'))
+    return out
 
 
 def lake_build(targets: list[str]) -> tuple[bool, str]:
